@@ -447,7 +447,8 @@ def gen_case(draw, tier):
             lvl = draw(st.sampled_from([0, 1]))
             if s['level'] == 1 and False:
                 lvl = 1
-            attrs.append({'attr': 'p%d' % k, 'pname': p['name'], 'iface': s['name'],
+            # (the Python attribute a descriptor sits on is the class author's business: public, private, dunder-ish)
+            attrs.append({'attr': ['p%d', '_p%d', 'p%d', '__p%d_'][k % 4] % k, 'pname': p['name'], 'iface': s['name'],
                           'explicit': True if counts[p['name']] > 1 else draw(st.booleans()),
                           'level': lvl, 'init': draw(_val(p['sig']))})
             k += 1
